@@ -7,7 +7,7 @@
 From Coq Require Import Reals.
 From Flocq Require Import Core.Zaux Core.Raux Core.Defs Core.Generic_fmt Core.Round_NE IEEE754.BinarySingleNaN.
 Require Import PG.Base.Bytes PG.Base.GoSlice PG.Base.Value.
-Require Import PG.C05.Float64 PG.C05.Model PG.C05.Spec PG.C05.LayoutProofs PG.C05.FloatProofs.
+Require Import PG.C05.Float64 PG.C05.Model PG.C05.Spec PG.C05.LayoutProofs PG.C05.FloatProofs PG.C05.HistoricProofs.
 Open Scope Z_scope.
 
 (* ---- header: finite domain, by computation over all 65 536 header words -------------------------
@@ -131,3 +131,21 @@ Qed.
 Print Assumptions C05_jsonb.
 Example C05_jsonb_ex : enc_varlena4 (enc_short (NNum false 0 0 [1])) = [x20; x00; x00; x00; x00; x80; x01; x00].
 Proof. reflexivity. Qed.
+
+(* ---- the repaired defects, as refutations of the code before the fix: commits ([Historic] model of
+   jsonb.go at d1bcd33; witnesses by vm_compute) ---------------------------------------------------- *)
+Theorem C05_historic_refuted :
+  (* D17: 0.5 decoded as about 5e-253 *)
+  (exists v, wf_short v /\ in_exact_class v = true /\
+     Historic.DecodeNumeric (exact (enc_short v)) <> Ok (expected v)) /\
+  (* D18: NaN / Infinity / -Infinity reported as the number 0 *)
+  (forall v, is_special v = true -> Historic.DecodeNumeric (exact (enc_short v)) = Ok (VInt 0) /\ expected v <> VInt 0) /\
+  (* D19: the on-disk long form of 1 is rejected *)
+  (exists v, wf_long v /\ in_exact_class v = true /\ Historic.DecodeNumeric (exact (enc_long v)) = Ok VNil).
+Proof.
+  split; [|split].
+  - destruct D17_short_weight_refuted as (v & H1 & H2 & H3 & _). eauto.
+  - exact D18_special_refuted.
+  - destruct D19_long_layout_refuted as (v & H1 & H2 & H3 & _). eauto.
+Qed.
+Print Assumptions C05_historic_refuted.
